@@ -224,23 +224,26 @@ ADDED2 = {'C01': "After rounds 2 and 3: the substitution rule puts only closed t
 
 # rules added after round 4 of seeded changes and the second pass over the reported defects (DESIGN.md 4g, 4h)
 ADDED3 = {
-    'C01': 'And: every recursion through an abstraction passes depth + 1, through a combination the depth unchanged (K14); the scoping predicate and the identifier-equals-position discipline of the checker (K15).',
+    'C01': 'And: every recursion through an abstraction passes depth + 1, through a combination the depth unchanged (K14); the scoping predicate and the identifier-equals-position discipline of the checker (K15). An instantiation rule applies to every hypothesis exactly the operation it applies to the conclusion (K16).',
     'C02': 'And: items are checked at the position their identifier names, per block (P11); checked_extend installs a theorem only after its own proof was checked, also through helpers (P4).',
-    'C03': 'And: the de Bruijn depth discipline of every depth-carrying recursion over terms (I7).',
-    'C04': 'And: the expansion reads every argument component the reported result depends on and the premises do not determine (M12); the stated theorems of the library in the decidable fragment hold in every row of their small-domain table (M13, about 780 statements).',
-    'C06': 'And: after two locals were swapped, the expressions they were bound from are not read again (Z6); every case of fologic.simplify1 / simplify / nnf returns a term with the truth table of the case it matched (Z7).',
-    'C09': 'And: the test for bound variables that escape the pattern arguments dominates the abstraction branch (N8).',
-    'C10': 'And: the clean-up rewrite after normalising one argument is the theorem for that side, read from the library (V8).',
-    'C11': 'And: the side conditions on the variables of a defining equation: subset test with types, no schematic variables (D7).',
-    'C12': 'And: a cached theory is reused only when the recorded timestamp equals the current one (L9).',
-    'C13': 'And: after find_goal, citations are redirected to the line it returned (A9); renumbering moves the ids of every depth (A10).',
-    'C14': 'And: renumbering after an insertion or deletion moves the ids of every depth below the changed position (S6).',
-    'C15': 'And: clauses whose length decides backtracking are free of repeated literals (X7); the working clause list is a position-preserving image of the argument and append-only (X8).',
-    'C16': 'And: after every asserted bound the tableau is checked before the next assertion or the result (O4).',
-    'C17': 'And: explanation requests are answered for identical terms (G5); stale-after-swap (G6); re-rooting the proof forest reverses every edge of the path (G7).',
-    'C18': 'And: stale-after-swap (R13); factors and summands are never compared as sets (R14); parallel walkers test both heads (R15); loops over the pairs of a mapping read both components (R16); per-element found-flags are reset per element and the element loop is not left early (R17); variables of stripped quantifiers are examined (R18); for 86 of the 154 accept sites of the rule evaluators the accepted clause is a consequence of the premises in every row of the truth / small-integer table of the parts the tests leave open (R19, sa/propeval.py); every case of get_cnf keeps the truth table (R20).',
-    'C19': 'And: a sum of growing terms takes the greater asymptote, a sum of decaying terms the smaller one (E6, selection tables over the four comparison outcomes).',
-    'C20': 'And: the negation used for the exit condition of a loop negates: the node ~e or the dual connective over negated parts (P5).',
+    'C03': 'And: the de Bruijn depth discipline of every depth-carrying recursion over terms (I7). A table of type instantiations is applied only after the last addition to it (I8).',
+    'C04': 'And: the expansion reads every argument component the reported result depends on and the premises do not determine (M12); the stated theorems of the library in the decidable fragment hold in every row of their small-domain table (M13, about 780 statements). Theorems about bit0 / bit1 are instantiated with bit strings (M14); a prefix stripped outermost-first is put back by wrapping in reverse (M15).',
+    'C06': 'And: after two locals were swapped, the expressions they were bound from are not read again (Z6); every case of fologic.simplify1 / simplify / nnf returns a term with the truth table of the case it matched (Z7). Fresh-name discipline of the translation and an avoid list computed from the translated formulas (Z8).',
+    'C09': 'And: the test for bound variables that escape the pattern arguments dominates the abstraction branch (N8). The replacement for a bound variable is chosen against the terms as they are when the binder is opened (N9).',
+    'C10': 'And: the clean-up rewrite after normalising one argument is the theorem for that side, read from the library (V8). The order behind the normal forms compares exactly the fields equality compares (V9).',
+    'C11': 'And: the side conditions on the variables of a defining equation: subset test with types, no schematic variables (D7). Every extension reaches the handler of its kind unconditionally (D8).',
+    'C12': 'And: a cached theory is reused only when the recorded timestamp equals the current one (L9). A position in the item list is never tested by its truth value (L10).',
+    'C13': 'And: after find_goal, citations are redirected to the line it returned (A9); renumbering moves the ids of every depth (A10). A proof line is parsed under the variable declarations of the lines before it (A11).',
+    'C15': 'And: clauses whose length decides backtracking are free of repeated literals (X7); the working clause list is a position-preserving image of the argument and append-only (X8). The clause under construction in conflict analysis changes only by resolution with a named clause (X9).',
+    'C16': 'And: after every asserted bound the tableau is checked before the next assertion or the result (O4). Every row that enters a constraint database was divided by the non-negative gcd of its coefficients (O5); a bound is stored only after it was compared with the opposite bound (O6).',
+    'C05': 'And: the power of a polynomial decides the exponent 0 before any other case (T8).',
+    'C07': 'And: type inference, with which every parser entry point ends, expands its table to a fixpoint (W6).',
+    'C08': 'And: the representatives of internal type variables are expanded to a fixpoint (U8).',
+    'C14': 'And: renumbering after an insertion or deletion moves the ids of every depth below the changed position (S6); stripped prefixes are put back in order by the expansion that closes trivial subgoals (S7).',
+    'C17': 'And: explanation requests are answered for identical terms (G5); stale-after-swap (G6); re-rooting the proof forest reverses every edge of the path (G7). An explanation is stored under the pair it was computed for (G8).',
+    'C18': 'And: stale-after-swap (R13); factors and summands are never compared as sets (R14); parallel walkers test both heads (R15); loops over the pairs of a mapping read both components (R16); per-element found-flags are reset per element and the element loop is not left early (R17); variables of stripped quantifiers are examined (R18); for 86 of the 154 accept sites of the rule evaluators the accepted clause is a consequence of the premises in every row of the truth / small-integer table of the parts the tests leave open (R19, sa/propeval.py); every case of get_cnf keeps the truth table (R20). The kind-blind quantifier destructor is never applied to both terms of a comparison (R21); gen_and / gen_or keep the meaning in every quantifier case, decided over a two-element domain (R22, sa/quantdist.py).',
+    'C19': 'And: a sum of growing terms takes the greater asymptote, a sum of decaying terms the smaller one (E6, selection tables over the four comparison outcomes). The division of constants answers only after the zero-denominator test (E7).',
+    'C20': 'And: the negation used for the exit condition of a loop negates: the node ~e or the dual connective over negated parts (P5). Substitution under a binder refuses capture (P6); the HOL form of each binary operator has the table of that operator over both operands (P7).',
 }
 
 
